@@ -1433,6 +1433,78 @@ func c17NoLostWakeup(c *Ctx) {
 	}
 }
 
+// sendsOn: a (blocking or non-blocking) send on the channel held in the given field.
+func sendsOn(ch *types.Var) IP {
+	return func(in ssa.Instruction) bool {
+		switch x := in.(type) {
+		case *ssa.Send:
+			return loadsPath(x.Chan, ch)
+		case *ssa.Select:
+			for _, st := range x.States {
+				if st.Dir == types.SendOnly && loadsPath(st.Chan, ch) {
+					return true
+				}
+			}
+		}
+		return false
+	}
+}
+
+// C17.10: the datagram queue wakes its waiters. A Receive blocked on `rcvd` is woken by every datagram that is queued;
+// an Add blocked on `sent` is woken by every Pop; CloseWithError records the error before it closes `closed` (a woken
+// waiter returns closeErr) and closes it on every path.
+func c17DatagramQueueWakeups(c *Ctx) { datagramQueueWakeups(c, "C17.10") }
+
+func datagramQueueWakeups(c *Ctx, R string) {
+	rcvQueue := c.fld("", "datagramQueue", "rcvQueue")
+	rcvd := c.fld("", "datagramQueue", "rcvd")
+	sent := c.fld("", "datagramQueue", "sent")
+	closed := c.fld("", "datagramQueue", "closed")
+	closeErr := c.fld("", "datagramQueue", "closeErr")
+	h := c.fn("", "datagramQueue", "HandleDatagramFrame")
+	n := 0
+	for _, in := range findInstrs(h, StoresTo(rcvQueue)) {
+		in := in
+		if cl, ok := in.(*ssa.Store).Val.(*ssa.Call); !ok || builtinName(&cl.Call) != "append" {
+			continue
+		}
+		n++
+		c.cut(R, "wake:a queued datagram signals rcvd", &Cut{Fn: h, Start: func(x ssa.Instruction) bool { return x == in }, Target: isReturn, Barrier: sendsOn(rcvd)},
+			"a Receive that found the queue empty waits on rcvd: a datagram queued without the signal is delivered only with the next one (or never)")
+	}
+	c.Floor(R, "receive-queue appends in HandleDatagramFrame", n, 1)
+	pop := c.fn("", "datagramQueue", "Pop")
+	c.cut(R, "wake:Pop signals sent", &Cut{Fn: pop, Target: isReturn, Barrier: sendsOn(sent)},
+		"an Add blocked on a full send queue waits on sent: a Pop without the signal leaves it blocked although there is room")
+	cw := c.fn("", "datagramQueue", "CloseWithError")
+	isClose := func(in ssa.Instruction) bool {
+		cl, ok := in.(*ssa.Call)
+		return ok && builtinName(&cl.Call) == "close" && loadsPath(cl.Call.Args[0], closed)
+	}
+	c.cut(R, "close:closed is closed on every path", &Cut{Fn: cw, Target: isReturn, Barrier: isClose}, "blocked Add / Receive calls are released by the closed channel")
+	c.cut(R, "close:closeErr recorded before closed is closed", &Cut{Fn: cw, Target: isClose, Barrier: StoresTo(closeErr)}, "a waiter woken by the closed channel returns closeErr: it must already hold the error")
+	// the waiters listen on closed
+	for _, wn := range []string{"Add", "Receive"} {
+		f := c.fn("", "datagramQueue", wn)
+		k := 0
+		eachInstr(f, func(in ssa.Instruction) {
+			sel, ok := in.(*ssa.Select)
+			if !ok || !sel.Blocking {
+				return
+			}
+			k++
+			has := false
+			for _, st := range sel.States {
+				if st.Dir == types.RecvOnly && loadsPath(st.Chan, closed) {
+					has = true
+				}
+			}
+			c.Check(has, R, fmt.Sprintf("wait:%s#%d also waits on closed", wn, k), c.P.InstrPos(in), "a blocked call must be released when the connection closes")
+		})
+		c.Floor(R, "blocking selects in datagramQueue."+wn, k, 1)
+	}
+}
+
 // wakeExceptions: writes of a predicate field that need no wake-up, with the reason.
 var wakeExceptions = map[string]string{
 	"ReceiveStream.finalOffset@handleStreamFrameImpl":      "set from a FIN frame; the same call then queues the frame and signals (Push → signalRead); the paths without a signal are the error return and the locally-cancelled stream, whose reader already returned",
